@@ -40,24 +40,28 @@ def classify_missing(w, q, cand):
     allocs, mappings = cand
     mp = dict(mappings)
     g = q['groups'].get('')
-    if g is None or '' not in mp or len(mp) < 2:
+    if g is None or '' not in mp:
         return None
     mine = set(mp[''])
-    others = set()
-    for s_, ps in mp.items():
-        if s_ != '':
-            others |= set(ps)
-    if not mine or not mine <= w.sharing:
+    everyone = set()
+    for ps in mp.values():
+        everyone |= set(ps)
+    if not mine:
         return None
-    other_tops = {w.top[p] for p in others}
-    if {w.top[p] for p in mine} & other_tops:
-        return None
-    if g.get('in_tree'):
-        return 'unsuffixed-in_tree-satisfied-by-sharing-provider-of-another-tree'
+    if g.get('in_tree') and g['in_tree'] in w.top:
+        # the suffixless group is confined to one tree, all its resources come from sharing
+        # providers there, and some other group is satisfied outside that tree: the combination
+        # exists only through an anchor other than the in_tree tree
+        t = w.top[g['in_tree']]
+        if mine <= w.sharing and any(w.top[p] != t for p in everyone):
+            return 'unsuffixed-in_tree-satisfied-by-sharing-provider-of-another-tree'
     fa = set(g.get('forbidden_aggs') or [])
-    if fa and not any(fa & w.aggs.get(p, set()) for p in mine) and \
-            all(fa & w.aggs.get(t, set()) for t in other_tops):
-        return 'unsuffixed-forbidden-aggregate-held-by-anchor-root-only'
+    if fa and (mine & w.sharing) and not any(fa & w.aggs.get(p, set()) for p in mine):
+        # no provider of the suffixless group is in a forbidden aggregate itself, but every tree
+        # through which the combination can be anchored has its root in one
+        anchors = [r for r in w.roots if everyone <= w.usable(r)]
+        if anchors and all(fa & w.aggs.get(r, set()) for r in anchors):
+            return 'unsuffixed-forbidden-aggregate-held-by-anchor-root-only'
     return None
 
 
